@@ -82,6 +82,30 @@ pub fn yuv444<T: Pixel>(codes: &[[u32; 3]], cfg: YuvConfig) -> Yuv<T> {
     for (pi, p) in planes.iter_mut().enumerate() { let o = p.data_origin_mut(); for (i, c) in codes.iter().enumerate() { o[i] = T::cast_from(c[pi] as u16); } }
     Yuv::new(Frame { planes }, cfg).unwrap()
 }
+/// Applies a float-image conversion piecewise: `px` is cut into consecutive pieces whose lengths run through the residues of
+/// every small block size (1..9, 15..17, 31, 33, 63, 65, 97, 255, 1021, 4099, and a long piece now and then) and whose shapes
+/// vary (one row, one column, two rows, three rows). A conversion that treats blocks, tails, rows or the whole buffer
+/// specially (vectorised loops, overlapping tails, remainders left unprocessed) meets every case; a pointwise conversion
+/// gives the same pixels as on one long row.
+pub fn piecewise_try<E>(px: &[[f32; 3]], f: &dyn Fn(Vec<[f32; 3]>, usize, usize) -> Result<Vec<[f32; 3]>, E>) -> Result<Vec<[f32; 3]>, E> {
+    const LENS: [usize; 20] = [1, 2, 3, 4, 5, 6, 7, 8, 9, 15, 16, 17, 31, 33, 63, 65, 97, 255, 1021, 4099];
+    let mut out = Vec::with_capacity(px.len()); let (mut i, mut k) = (0usize, 0usize);
+    while i < px.len() {
+        let l = (if k % 21 == 20 { 60_000 } else { LENS[k % 21 % 20] }).min(px.len() - i);
+        let (w, h) = match k % 4 { 1 => (1, l), 2 if l % 2 == 0 => (l / 2, 2), 3 if l % 3 == 0 => (l / 3, 3), _ => (l, 1) };
+        let mut o = f(px[i..i + l].to_vec(), w, h)?;
+        o.resize(l, [f32::NAN; 3]);
+        out.extend(o); i += l; k += 1;
+    }
+    Ok(out)
+}
+pub fn piecewise(px: &[[f32; 3]], f: &dyn Fn(Vec<[f32; 3]>, usize, usize) -> Vec<[f32; 3]>) -> Vec<[f32; 3]> {
+    match piecewise_try::<()>(px, &|d, w, h| Ok(f(d, w, h))) { Ok(v) => v, Err(()) => unreachable!() }
+}
+/// pixel data with the `.data()` accessor of the image types
+pub struct Px(pub Vec<[f32; 3]>);
+impl Px { pub fn data(&self) -> &[[f32; 3]] { &self.0 } }
+
 pub fn codes_of<T: Pixel>(y: &Yuv<T>) -> Vec<[u32; 3]> {
     let w = y.width();
     (0..w).map(|i| [u16::cast_from(y.data()[0].data_origin()[i]) as u32, u16::cast_from(y.data()[1].data_origin()[i]) as u32, u16::cast_from(y.data()[2].data_origin()[i]) as u32]).collect()
